@@ -1,11 +1,25 @@
-use rusty_leveldb::{DB, Options};
+// LevelDB helper for the verification harness.
+//   ldbw <dir>            writes the `keyhex valuehex` lines read from stdin into a new database
+//   ldbw dump <dir>       prints every key/value pair as `keyhex valuehex` (sorted by key, as the iterator yields them)
+use rusty_leveldb::{LdbIterator, Options, DB};
 use std::io::{self, BufRead};
-fn unhex(s:&str)->Vec<u8>{(0..s.len()).step_by(2).map(|i|u8::from_str_radix(&s[i..i+2],16).unwrap()).collect()}
-fn main(){
-    let path=std::env::args().nth(1).unwrap();
-    let mut o=Options::default(); o.create_if_missing=true;
-    let mut db=DB::open(&path,o).unwrap();
-    for l in io::stdin().lock().lines(){ let l=l.unwrap(); let mut it=l.split_whitespace();
-        let k=unhex(it.next().unwrap()); let v=unhex(it.next().unwrap_or("")); db.put(&k,&v).unwrap(); }
+fn unhex(s: &str) -> Vec<u8> { (0..s.len()).step_by(2).map(|i| u8::from_str_radix(&s[i..i + 2], 16).unwrap()).collect() }
+fn hex(b: &[u8]) -> String { b.iter().map(|x| format!("{:02x}", x)).collect() }
+fn main() {
+    let args: Vec<String> = std::env::args().collect();
+    if args[1] == "dump" {
+        let mut db = DB::open(&args[2], Options::default()).unwrap();
+        let mut it = db.new_iter().unwrap();
+        let (mut k, mut v) = (vec![], vec![]);
+        while it.advance() { it.current(&mut k, &mut v); println!("{} {}", hex(&k), hex(&v)); }
+        return;
+    }
+    let mut o = Options::default(); o.create_if_missing = true;
+    let mut db = DB::open(&args[1], o).unwrap();
+    for l in io::stdin().lock().lines() {
+        let l = l.unwrap(); let mut it = l.split_whitespace();
+        let k = match it.next() { Some(k) => unhex(k), None => continue };
+        let v = unhex(it.next().unwrap_or("")); db.put(&k, &v).unwrap();
+    }
     db.flush().unwrap();
 }
